@@ -91,6 +91,13 @@ def check(tier):
                    'SHAKE-256 itself (sha3 crate) is trusted: the stub returns arbitrary bytes']
     rep.trusted = ['mirsym summaries (Vec::{new,len,push}, array indexing)', 'environment stubs: Shake256::default/update/finalize_xof/XofReader::read', 'z3']
     rep.assumptions = ['oracle: Algorithm 3 (big-endian 16-bit chunks, reject >= 61445, reduce mod 12289) written in vf/props/c14_scen.py over the same symbolic stream']
+    run(rep, tier)
+    if rep.violations:
+        rep.inconclusive = []              # a replayed violation decides the run; unreproduced siblings are not needed
+    return rep.finish()
+
+
+def run(rep, tier):
     prog, secs = load_program(fresh=True)
     jobs = jobs_for(tier)
     results = run_jobs(jobs, workers=NCPU, order_seed=seed())
@@ -111,7 +118,14 @@ def check(tier):
             if rep.violations or rep.known_hit:
                 break                      # one replayed counterexample per run is enough; the rest are counted as undischarged
             confirm(rep, b)
-    rep.extra['mir_hashes'] = hashes
-    if rep.violations:
-        rep.inconclusive = []              # a replayed violation decides the run; unreproduced siblings are not needed
-    return rep.finish()
+    rep.extra.setdefault('mir_hashes', {}).update(hashes)
+    # translator validation: concrete runs of the same executor + stubs on real SHAKE streams vs the real function
+    val = [(MOD, 'h2p_concrete_scen', dict(msg_hex=m.hex(), n=n)) for m in (b'', b'verif-c14-validate', b'\x00' * 41) for n in (16, 512)]
+    for job, r in zip(val, run_jobs(val, workers=6)):
+        if r.get('error') or r.get('point') is None:
+            rep.note_inconclusive('translator validation could not run: %s' % r.get('error')); continue
+        got = replay.call1(['hash_to_point', job[2]['n'], job[2]['msg_hex'] or '-'])
+        if got == ','.join(map(str, r['point'])) and r['point'] == spec_h2p(bytes.fromhex(job[2]['msg_hex']), job[2]['n']):
+            rep.replayed += 1
+        else:
+            rep.note_inconclusive('translator validation failed for hash_to_point(%s, %d): mirsym %s..., real code %s...' % (job[2]['msg_hex'][:16], job[2]['n'], r['point'][:4], got[:40]))
